@@ -4,6 +4,11 @@ use std::{any::Any, collections::HashMap};
 pub(crate) struct Set {
     /// Registered statics.
     statics: Option<HashMap<StaticKeyId, StaticValue>>,
+
+    /// Keys of `statics` in initialization order. The values are dropped in
+    /// this order, so that the exploration does not depend on the iteration
+    /// order of a `HashMap`.
+    order: Vec<StaticKeyId>,
 }
 
 #[derive(Eq, PartialEq, Hash, Copy, Clone)]
@@ -19,6 +24,7 @@ impl Set {
     pub(crate) fn new() -> Set {
         Set {
             statics: Some(HashMap::new()),
+            order: Vec::new(),
         }
     }
 
@@ -28,12 +34,19 @@ impl Set {
             "lazy_static was not dropped during execution"
         );
         self.statics = Some(HashMap::new());
+        self.order.clear();
     }
 
-    pub(crate) fn drop(&mut self) -> HashMap<StaticKeyId, StaticValue> {
-        self.statics
+    pub(crate) fn drop(&mut self) -> Vec<StaticValue> {
+        let mut statics = self
+            .statics
             .take()
-            .expect("lazy_statics were dropped twice in one execution")
+            .expect("lazy_statics were dropped twice in one execution");
+
+        self.order
+            .drain(..)
+            .filter_map(|key| statics.remove(&key))
+            .collect()
     }
 
     pub(crate) fn get_static<T: 'static>(
@@ -51,6 +64,8 @@ impl Set {
         key: &'static crate::lazy_static::Lazy<T>,
         value: StaticValue,
     ) -> &mut StaticValue {
+        self.order.push(StaticKeyId::new(key));
+
         let v = self
             .statics
             .as_mut()
